@@ -19,7 +19,7 @@ run_demo() {
 		rm -f tests/demo.rs
 		return $rc
 	else
-		bash "$SRC/demo.sh" "$WT" > /tmp/confirm-$NAME.demo.log 2>&1
+		env -u CARGO_TARGET_DIR bash "$SRC/demo.sh" "$WT" > /tmp/confirm-$NAME.demo.log 2>&1
 	fi
 }
 if ! git apply "$SRC/patch.diff"; then echo "$NAME: PATCH-DOES-NOT-APPLY"; exit 1; fi
